@@ -257,4 +257,459 @@ theorem shape_publish {st : AggState} {S : List (List Value)} (h : Shape st S) :
   obtain ⟨subs, _, _, hg, _, _⟩ := pubEntries_mem he
   exact h.aggsKeys _ hg
 
+/-! ### slots of a well-formed statement -/
+
+def havingAggOf : HavingRef → Option (Nat × AggKind)
+  | .agg id k => some (id, k)
+  | .key _ => none
+
+/-- the lowered statement is consistent: `havingAggs` lists the non-key aggregates of the HAVING walk in order,
+and there are none without HAVING (the harness serialises both from the same walk) -/
+structure StmtWF (q : AggStmt) : Prop where
+  visit : q.havingVisit.filterMap havingAggOf = q.havingAggs
+  noHaving : q.having = none → q.havingAggs = []
+
+theorem visitSlots_eq (v : List HavingRef) (n : Nat) :
+    visitSlots v n = enumFrom n ((v.filterMap havingAggOf).map (·.2)) := by
+  induction v generalizing n with
+  | nil => rfl
+  | cons r rest ih =>
+    cases r with
+    | key c => simp only [visitSlots, List.filterMap_cons, havingAggOf]; exact ih n
+    | agg id k => simp only [visitSlots, List.filterMap_cons, havingAggOf, List.map_cons, enumFrom]; rw [ih]
+
+theorem mem_enumFrom_append {α : Type} (a b : List α) (n : Nat) :
+    enumFrom n (a ++ b) = enumFrom n a ++ enumFrom (n + a.length) b := by
+  induction a generalizing n with
+  | nil => simp [enumFrom]
+  | cons x xs ih =>
+    simp only [List.cons_append, enumFrom, ih, List.length_cons]
+    have : n + 1 + xs.length = n + (xs.length + 1) := by omega
+    rw [this]
+
+/-- for a well-formed statement the slots a row updates are the select-list kinds followed by HAVING's kinds -/
+theorem rowSlots_eq {q : AggStmt} (hwf : StmtWF q) : rowSlots q = enumFrom 0 (slotKinds q) := by
+  unfold rowSlots slotKinds
+  rw [mem_enumFrom_append]
+  simp only [Nat.zero_add, List.length_map]
+  cases hh : q.having with
+  | none => simp [hwf.noHaving hh, enumFrom]
+  | some h => simp only [visitSlots_eq, hwf.visit]
+
+theorem enumFrom_mem_map {α β : Type} (f : α → β) (l : List α) (n i : Nat) (x : α) (h : (i, x) ∈ enumFrom n l) :
+    (i, f x) ∈ enumFrom n (l.map f) := by
+  induction l generalizing n with
+  | nil => simp [enumFrom] at h
+  | cons y ys ih =>
+    simp only [enumFrom, List.map_cons, List.mem_cons] at h ⊢
+    rcases h with h | h
+    · simp only [Prod.mk.injEq] at h; exact Or.inl (by simp [h.1, h.2])
+    · exact Or.inr (ih (n + 1) h)
+
+theorem enumFrom_mem_append_left {α : Type} (a b : List α) (n i : Nat) (x : α) (h : (i, x) ∈ enumFrom n a) :
+    (i, x) ∈ enumFrom n (a ++ b) := by
+  rw [mem_enumFrom_append]; exact List.mem_append_left _ h
+
+theorem enumFrom_mem_append_right {α : Type} (a b : List α) (n i : Nat) (x : α) (h : (i, x) ∈ enumFrom (n + a.length) b) :
+    (i, x) ∈ enumFrom n (a ++ b) := by
+  rw [mem_enumFrom_append]; exact List.mem_append_right _ h
+
+theorem enumFrom_exists {α : Type} (l : List α) (n : Nat) (x : α) (h : x ∈ l) : ∃ i, (i, x) ∈ enumFrom n l := by
+  induction l generalizing n with
+  | nil => simp at h
+  | cons y ys ih =>
+    rcases List.mem_cons.mp h with h | h
+    · subst h; exact ⟨n, by simp [enumFrom]⟩
+    · obtain ⟨i, hi⟩ := ih (n + 1) h
+      exact ⟨i, by simp [enumFrom, hi]⟩
+
+/-! ### from the fold over rows to the fold over argument values -/
+
+theorem cellFold_args {O : Oracles} {q : AggStmt} {kind : AggKind} (g : List Env) (c c' : Cell)
+    (h : cellFold O q kind g c = .ok c') :
+    ∃ vs, arguments O q kind g = some vs ∧ foldV kind vs c = .ok c' := by
+  induction g generalizing c with
+  | nil =>
+    simp only [cellFold, Outcome.ok.injEq] at h
+    subst h
+    exact ⟨[], rfl, rfl⟩
+  | cons env rest ih =>
+    simp only [cellFold] at h
+    obtain ⟨c1, h1, h2⟩ := obind_ok h
+    rw [cellStep_eq] at h1
+    obtain ⟨v, hv, hs⟩ := obind_ok h1
+    obtain ⟨vs, hvs, hf⟩ := ih c1 h2
+    refine ⟨v :: vs, ?_, ?_⟩
+    · simp only [arguments, List.map_cons, hv, okOf, collect] at hvs ⊢
+      rw [hvs]; rfl
+    · simp only [foldV, hs, Outcome.bind]; exact hf
+
+theorem arguments_length {O : Oracles} {q : AggStmt} {kind : AggKind} {g : List Env} {vs : List Value}
+    (h : arguments O q kind g = some vs) : vs.length = g.length := by
+  induction g generalizing vs with
+  | nil => simp [arguments, collect] at h; subst h; rfl
+  | cons env rest ih =>
+    simp only [arguments, List.map_cons] at h
+    cases ha : okOf (argument O q env kind) with
+    | none => simp [ha, collect] at h
+    | some a =>
+      rw [ha] at h
+      obtain ⟨l', h', hl⟩ := collect_eq_some_cons h
+      subst hl
+      simp [ih h']
+
+/-- **one aggregate of one group**: if the cell is the fold over the group's rows and the specification fixes the
+value of the aggregate over those rows, the cell shows that value, and it has an entry exactly as `createsEntry` says -/
+theorem slot_value {O : Oracles} {q : AggStmt} {kind : AggKind} {g : List Env} {c : Cell} {r : Value}
+    (hg : g ≠ []) (hf : cellFold O q kind g {} = .ok c) (hv : groupValue O q kind g = some r)
+    (hd15 : ∀ vs, arguments O q kind g = some vs → firstNull kind vs = false) :
+    shownValue kind c = r ∧ ∃ vs, arguments O q kind g = some vs ∧ (published c).isSome = createsEntry kind vs := by
+  obtain ⟨vs, hvs, hfv⟩ := cellFold_args g {} c hf
+  simp only [groupValue, hvs, Option.bind_some] at hv
+  have hne : vs ≠ [] := by
+    intro he
+    have := arguments_length hvs
+    rw [he] at this
+    cases g with
+    | nil => exact hg rfl
+    | cons _ _ => simp at this
+  obtain ⟨c', hc', hshow, hvis⟩ := aggregate_refines kind vs r hne hv (hd15 vs hvs)
+  rw [hfv] at hc'
+  simp only [Outcome.ok.injEq] at hc'
+  subst hc'
+  exact ⟨hshow, vs, hvs, hvis⟩
+
+/-! ### one group in the result loop -/
+
+/-- what the result loop sees of one group: for every slot whose value the specification fixes, the stored value
+(or the aggregate's empty value when there is no entry) is that value -/
+structure GroupView (O : Oracles) (q : AggStmt) (subs : List (Nat × Value)) (g : List Env) : Prop where
+  slot : ∀ i kind r, (i, kind) ∈ enumFrom 0 (slotKinds q) → groupValue O q kind g = some r →
+    (alGet subs i).getD (emptyGroupValue kind) = r
+
+theorem okOf_eq_some {α : Type} {o : Outcome α} {a : α} (h : okOf o = some a) : o = .ok a := by
+  cases o <;> simp [okOf] at h; rw [h]
+
+theorem cellOf_nonkey (O : Oracles) (q : AggStmt) (i : Nat) (item : AggItem) (key : List Value) (subs : List (Nat × Value))
+    (hk : ∀ e c, item.kind ≠ .groupKey e c) :
+    cellOf O q i item key subs = applyTransform O item.transform ((alGet subs i).getD (emptyGroupValue item.kind)) := by
+  unfold cellOf
+  cases h : item.kind with
+  | groupKey e c => exact absurd h (hk e c)
+  | _ => rfl
+
+theorem cell_nonkey (O : Oracles) (q : AggStmt) (key : List Value) (g : List Env) (item : AggItem)
+    (hk : ∀ e c, item.kind ≠ .groupKey e c) :
+    cell O q key g item = (groupValue O q item.kind g).bind (fun v => okOf (applyTransform O item.transform v)) := by
+  unfold cell
+  cases h : item.kind with
+  | groupKey e c => exact absurd h (hk e c)
+  | _ => rfl
+
+theorem cell_view {O : Oracles} {q : AggStmt} {key : List Value} {subs : List (Nat × Value)} {g : List Env}
+    (hv : GroupView O q subs g) {i : Nat} {item : AggItem} (hslot : (i, item.kind) ∈ enumFrom 0 (slotKinds q)) {v : Value}
+    (h : cell O q key g item = some v) : cellOf O q i item key subs = .ok v := by
+  by_cases hk : ∃ e c, item.kind = .groupKey e c
+  · obtain ⟨e, canon, hk⟩ := hk
+    unfold cell at h
+    unfold cellOf
+    rw [hk] at h ⊢
+    simp only at h ⊢
+    cases hm : mappingGet (keyMapping q) canon with
+    | none => simp [hm] at h
+    | some j =>
+      simp only [hm, Option.bind_some] at h
+      simp only [h]
+  · have hk' : ∀ e c, item.kind ≠ .groupKey e c := fun e c he => hk ⟨e, c, he⟩
+    rw [cell_nonkey O q key g item hk'] at h
+    rw [cellOf_nonkey O q i item key subs hk']
+    cases hgv : groupValue O q item.kind g with
+    | none => simp [hgv] at h
+    | some r =>
+      simp only [hgv, Option.bind_some] at h
+      rw [hv.slot i _ r hslot hgv]
+      exact okOf_eq_some h
+
+theorem rowOf_view {O : Oracles} {q : AggStmt} {key : List Value} {subs : List (Nat × Value)} {g : List Env}
+    (hv : GroupView O q subs g) (items : List AggItem) (n : Nat)
+    (hslots : ∀ i item, (i, item) ∈ enumFrom n items → (i, item.kind) ∈ enumFrom 0 (slotKinds q))
+    {r : List Value} (h : collect (items.map (cell O q key g)) = some r) :
+    rowOf O q key subs (enumFrom n items) = .ok r := by
+  induction items generalizing n r with
+  | nil => simp [collect] at h; subst h; rfl
+  | cons item rest ih =>
+    simp only [List.map_cons] at h
+    cases hc : cell O q key g item with
+    | none => simp [hc, collect] at h
+    | some v =>
+      rw [hc] at h
+      obtain ⟨r', hr', hr⟩ := collect_eq_some_cons h
+      subst hr
+      simp only [enumFrom, rowOf]
+      rw [cell_view hv (hslots n item (by simp [enumFrom])) hc]
+      rw [ih (n + 1) (fun i it hm => hslots i it (by simp [enumFrom, hm])) hr']
+      rfl
+
+theorem items_slots (q : AggStmt) : ∀ i item, (i, item) ∈ enumFrom 0 q.items → (i, item.kind) ∈ enumFrom 0 (slotKinds q) := by
+  intro i item h
+  unfold slotKinds
+  exact enumFrom_mem_append_left _ _ _ _ _ (enumFrom_mem_map (·.kind) _ _ _ _ h)
+
+/-- the row of a group: the specification's row -/
+theorem row_view {O : Oracles} {q : AggStmt} {key : List Value} {subs : List (Nat × Value)} {g : List Env}
+    (hv : GroupView O q subs g) {r : List Value} (h : row O q key g = some r) :
+    rowOf O q key subs (enumFrom 0 q.items) = .ok r :=
+  rowOf_view hv q.items 0 (items_slots q) h
+
+theorem having_slots (q : AggStmt) : ∀ j p, (j, p) ∈ enumFrom 0 q.havingAggs →
+    (q.items.length + j, p.2) ∈ enumFrom 0 (slotKinds q) := by
+  intro j p h
+  unfold slotKinds
+  apply enumFrom_mem_append_right
+  simp only [Nat.zero_add, List.length_map]
+  have := enumFrom_mem_map (·.2) _ _ _ _ h
+  -- shift the enumeration by the number of select-list items
+  have hshift : ∀ {α : Type} (l : List α) (a b i : Nat) (x : α), (i, x) ∈ enumFrom a l → (b + i, x) ∈ enumFrom (b + a) l := by
+    intro α l
+    induction l with
+    | nil => intro a b i x h; simp [enumFrom] at h
+    | cons y ys ih =>
+      intro a b i x h
+      simp only [enumFrom, List.mem_cons] at h ⊢
+      rcases h with h | h
+      · simp only [Prod.mk.injEq] at h; exact Or.inl (by simp [h.1, h.2])
+      · exact Or.inr (ih (a + 1) b i x h)
+  exact hshift _ 0 q.items.length j p.2 this
+
+theorem gvals_view {O : Oracles} {q : AggStmt} {subs : List (Nat × Value)} {g : List Env}
+    (hv : GroupView O q subs g) (aggs : List (Nat × AggKind)) (n : Nat)
+    (hslots : ∀ j p, (j, p) ∈ enumFrom n aggs → (q.items.length + j, p.2) ∈ enumFrom 0 (slotKinds q))
+    {gvals : List (Nat × Value)}
+    (h : collect (aggs.map (fun (p : Nat × AggKind) => (groupValue O q p.2 g).map (fun v => (p.1, v)))) = some gvals) :
+    (enumFrom n aggs).map (fun (jp : Nat × Nat × AggKind) =>
+      (jp.2.1, (alGet subs (q.items.length + jp.1)).getD (emptyGroupValue jp.2.2))) = gvals := by
+  induction aggs generalizing n gvals with
+  | nil => simp [collect] at h; subst h; rfl
+  | cons p rest ih =>
+    simp only [List.map_cons] at h
+    cases hg : groupValue O q p.2 g with
+    | none => simp [hg, collect] at h
+    | some v =>
+      simp only [hg, Option.map_some] at h
+      obtain ⟨l', hl', hl⟩ := collect_eq_some_cons h
+      subst hl
+      simp only [enumFrom, List.map_cons]
+      rw [hv.slot _ _ v (hslots n p (by simp [enumFrom])) hg]
+      rw [ih (n + 1) (fun j p' hm => hslots j p' (by simp [enumFrom, hm])) hl']
+
+/-- HAVING on a group: the specification's verdict -/
+theorem accept_view {O : Oracles} {q : AggStmt} {key : List Value} {subs : List (Nat × Value)} {g : List Env}
+    (hv : GroupView O q subs g) {a : Bool} (h : accept O q key g = some a) :
+    (match q.having with
+      | some hx => acceptGroup O q hx key subs
+      | none => pure true : Outcome Bool) = .ok a := by
+  unfold accept at h
+  cases hh : q.having with
+  | none => simp [hh] at h; subst h; rfl
+  | some hx =>
+    simp only [hh] at h ⊢
+    split at h
+    · simp at h
+    · rename_i gvals hgv
+      have hg := gvals_view hv q.havingAggs 0 (having_slots q) hgv
+      cases he : eval O { groupKeys := keyBindings q key, groupValues := gvals } hx with
+      | ok v =>
+        simp only [he, okOf, Option.map_some, Option.some.injEq] at h
+        subst h
+        unfold acceptGroup
+        simp only [keyBindings] at he
+        simp only [bind, Outcome.bind, pure]
+        have : (enumFrom 0 q.havingAggs).map (fun (x : Nat × Nat × AggKind) =>
+            match x with
+            | (j, (id, k)) => (id, (alGet subs (q.items.length + j)).getD (emptyGroupValue k))) = gvals := hg
+        rw [this, he]
+      | error k => simp [he, okOf] at h
+      | panic k => simp [he, okOf] at h
+      | oracleMissing k => simp [he, okOf] at h
+
+/-! ### the table -/
+
+/-- the groups of `group_values` seen next to the specification's groups, key by key -/
+inductive Views (O : Oracles) (q : AggStmt) : List (List Value × List (Nat × Value)) → List (List Value × List Env) → Prop
+  | nil : Views O q [] []
+  | cons {key : List Value} {subs : List (Nat × Value)} {g : List Env} {V : List (List Value × List (Nat × Value))}
+      {G : List (List Value × List Env)} : GroupView O q subs g → Views O q V G → Views O q ((key, subs) :: V) ((key, g) :: G)
+
+/-- the DISTINCT pass of `execute_result` over the kept rows -/
+def distinctPass (seen : List (List Value)) : List (List Value) → List (List Value)
+  | [] => []
+  | r :: rs => if seen.any (tupleSame r) then distinctPass seen rs else r :: distinctPass (r :: seen) rs
+
+def keptRows (all : List (List Value × Bool)) : List (List Value) := (all.filter (·.2)).map (·.1)
+
+def perGroup (O : Oracles) (q : AggStmt) (kg : List Value × List Env) : Option (List Value × Bool) :=
+  (row O q kg.1 kg.2).bind (fun r => (accept O q kg.1 kg.2).map (fun a => (r, a)))
+
+/-- HAVING on one group of `group_values` (always true without HAVING) -/
+def havingOk (O : Oracles) (q : AggStmt) (key : List Value) (subs : List (Nat × Value)) : Outcome Bool :=
+  match q.having with
+  | some h => acceptGroup O q h key subs
+  | none => pure true
+
+theorem resultRows_cons (O : Oracles) (q : AggStmt) (key : List Value) (subs : List (Nat × Value))
+    (rest : List (List Value × List (Nat × Value))) (seen : List (List Value)) :
+    resultRows O q ((key, subs) :: rest) seen =
+      (rowOf O q key subs (enumFrom 0 q.items)).bind (fun row =>
+        (havingOk O q key subs).bind (fun keep =>
+          if !keep then resultRows O q rest seen
+          else if q.distinct then
+            if (distinctAdd seen row).2 then (resultRows O q rest (distinctAdd seen row).1).bind (fun more => .ok (row :: more))
+            else resultRows O q rest (distinctAdd seen row).1
+          else (resultRows O q rest seen).bind (fun more => .ok (row :: more)))) := rfl
+
+theorem resultRows_view {O : Oracles} {q : AggStmt} {V : List (List Value × List (Nat × Value))}
+    {G : List (List Value × List Env)} (hv : Views O q V G) (seen : List (List Value)) {all : List (List Value × Bool)}
+    (h : collect (G.map (perGroup O q)) = some all) :
+    resultRows O q V seen = .ok (if q.distinct then distinctPass seen (keptRows all) else keptRows all) := by
+  induction hv generalizing seen all with
+  | nil => simp [collect] at h; subst h; cases q.distinct <;> rfl
+  | @cons key subs g V G hview hrest ih =>
+    simp only [List.map_cons] at h
+    cases hp : perGroup O q (key, g) with
+    | none => simp [hp, collect] at h
+    | some ra =>
+      rw [hp] at h
+      obtain ⟨all', hall', hall⟩ := collect_eq_some_cons h
+      subst hall
+      obtain ⟨r, a⟩ := ra
+      simp only [perGroup] at hp
+      cases hr : row O q key g with
+      | none => simp [hr] at hp
+      | some r' =>
+        simp only [hr, Option.bind_some] at hp
+        cases ha : accept O q key g with
+        | none => simp [ha] at hp
+        | some a' =>
+          simp only [ha, Option.map_some, Option.some.injEq, Prod.mk.injEq] at hp
+          obtain ⟨h1, h2⟩ := hp
+          subst h1; subst h2
+          have hacc : havingOk O q key subs = .ok a' := accept_view hview ha
+          rw [resultRows_cons, row_view hview hr, hacc]
+          simp only [Outcome.bind]
+          cases a' with
+          | false =>
+            simp only [Bool.not_false, if_true]
+            rw [ih seen hall']
+            simp [keptRows]
+          | true =>
+            simp only [Bool.not_true, Bool.false_eq_true, if_false]
+            cases hd : q.distinct with
+            | false =>
+              simp only [Bool.false_eq_true, if_false]
+              rw [ih seen hall']
+              simp [keptRows, hd]
+            | true =>
+              simp only [if_true, distinctAdd]
+              by_cases hs : seen.any (tupleSame r') = true
+              · simp only [hs, if_true, Bool.false_eq_true, if_false]
+                rw [ih seen hall']
+                simp [keptRows, hd, distinctPass, hs]
+              · simp only [hs, Bool.false_eq_true, if_false, if_true]
+                rw [ih (r' :: seen) hall']
+                simp [keptRows, hd, distinctPass, hs]
+
+theorem checkRows_view {O : Oracles} {q : AggStmt} {V : List (List Value × List (Nat × Value))}
+    {G : List (List Value × List Env)} (hv : Views O q V G) {all : List (List Value × Bool)}
+    (h : collect (G.map (perGroup O q)) = some all) :
+    (V.foldlM (fun (_ : Unit) (x : List Value × List (Nat × Value)) => do
+      let _ ← rowOf O q x.1 x.2 (enumFrom 0 q.items)
+      pure ()) () : Outcome Unit) = .ok () := by
+  induction hv generalizing all with
+  | nil => rfl
+  | @cons key subs g V G hview hrest ih =>
+    simp only [List.map_cons] at h
+    cases hp : perGroup O q (key, g) with
+    | none => simp [hp, collect] at h
+    | some ra =>
+      rw [hp] at h
+      obtain ⟨all', hall', _⟩ := collect_eq_some_cons h
+      simp only [perGroup] at hp
+      cases hr : row O q key g with
+      | none => simp [hr] at hp
+      | some r' =>
+        simp only [List.foldlM_cons, row_view hview hr, bind, Outcome.bind, pure]
+        exact ih hall'
+
+/-! ### DISTINCT -/
+
+theorem beqList_symm (a b : List Value) : Value.beqList a b = Value.beqList b a := by
+  cases hab : Value.beqList a b <;> cases hba : Value.beqList b a <;> try rfl
+  · have := cmpList_eq_symm ((cmpList_eq_iff_beqList b a).mpr hba)
+    rw [cmpList_eq_iff_beqList, hab] at this; exact this
+  · have := cmpList_eq_symm ((cmpList_eq_iff_beqList a b).mpr hab)
+    rw [cmpList_eq_iff_beqList, hba] at this; exact this.symm
+
+theorem beqList_trans {a b c : List Value} (h1 : Value.beqList a b = true) (h2 : Value.beqList b c = true) :
+    Value.beqList a c = true := by
+  rw [← cmpList_eq_iff_beqList] at *
+  exact cmpList_eq_trans h1 h2
+
+/-- the DISTINCT memory's membership test is tuple equality (equal tuples feed equal hash streams) -/
+theorem tupleSame_eq_beqList (a b : List Value) : tupleSame a b = Value.beqList a b := by
+  unfold tupleSame
+  cases h : Value.beqList a b
+  · simp
+  · simp [hashList_eq_of_beqList a b h]
+
+def notSeenRow (seen : List (List Value)) (x : List Value) : Bool := !seen.any (fun s => Value.beqList x s)
+
+theorem distinctPass_eq (seen rs : List (List Value)) :
+    distinctPass seen rs = (firstRows rs).filter (notSeenRow seen) := by
+  induction rs generalizing seen with
+  | nil => rfl
+  | cons r rs ih =>
+    simp only [distinctPass, firstRows]
+    by_cases hs : seen.any (tupleSame r) = true
+    · simp only [hs, if_true]
+      rw [ih seen]
+      have hr : notSeenRow seen r = false := by
+        simp only [notSeenRow, Bool.not_eq_false']
+        rw [List.any_eq_true] at hs ⊢
+        obtain ⟨s, hs1, hs2⟩ := hs
+        exact ⟨s, hs1, by rw [← tupleSame_eq_beqList]; exact hs2⟩
+      rw [List.filter_cons_of_neg (by simp [hr]), List.filter_filter]
+      apply List.filter_congr
+      intro x _
+      cases hx : notSeenRow seen x
+      · simp
+      · simp only [Bool.true_and]
+        cases hrx : Value.beqList r x
+        · rfl
+        · exfalso
+          simp only [notSeenRow, Bool.not_eq_true', Bool.not_eq_false'] at hx hr
+          rw [List.any_eq_true] at hr
+          obtain ⟨s, hs1, hs2⟩ := hr
+          have : Value.beqList x s = true := beqList_trans (by rw [beqList_symm]; exact hrx) hs2
+          have hh : seen.any (fun s => Value.beqList x s) = true := List.any_eq_true.mpr ⟨s, hs1, this⟩
+          rw [hh] at hx; exact absurd hx (by simp)
+    · simp only [hs, Bool.false_eq_true, if_false]
+      rw [ih (r :: seen)]
+      have hr : notSeenRow seen r = true := by
+        simp only [notSeenRow, Bool.not_eq_true']
+        cases h : seen.any (fun s => Value.beqList r s)
+        · rfl
+        · exfalso; apply hs
+          rw [List.any_eq_true] at h ⊢
+          obtain ⟨s, hs1, hs2⟩ := h
+          exact ⟨s, hs1, by rw [tupleSame_eq_beqList]; exact hs2⟩
+      rw [List.filter_cons_of_pos hr, List.filter_filter]
+      congr 1
+      apply List.filter_congr
+      intro x _
+      simp only [notSeenRow, List.any_cons, Bool.not_or, beqList_symm x r, Bool.and_comm]
+
+theorem distinctPass_nil (rs : List (List Value)) : distinctPass [] rs = firstRows rs := by
+  rw [distinctPass_eq]
+  apply List.filter_eq_self.mpr; intro x _; rfl
+
 end Sqlgrep
